@@ -14,6 +14,7 @@ class ViewModule:
         # offsets as (name, offset, size, kind, byte order that the language rules make effective, existence
         # condition text or None)
         self.oracle = []
+        self.floats = []
         self.build()
 
     def f(self, name, p):
@@ -230,6 +231,22 @@ class ViewModule:
         if self.f("requires", 0.3):
             L.append("  %d [+1]  UInt  checked" % (off + 70))
             L.append("    [requires: this != 13 && this < 250]")
+        # Float fields (compared by value: +0 == -0, NaN != NaN); drawn last so that the random stream of the
+        # other features is unchanged.  They may overlap the dynamic array, which the language allows.
+        self.floats = []       # (name, offset, size in bytes, effective byte order)
+        if self.f("float", 0.5):
+            for nm, o, sz in (("fl32", off + 20, 4), ("fl64", off + 24, 8)):
+                order = self.default_order
+                bo = ""
+                if r.random() < 0.3:
+                    order = r.choice(["LittleEndian", "BigEndian"])
+                    bo = '\n    [byte_order: "%s"]' % order
+                if r.random() < 0.25:
+                    L.append("  if tag != 3:")
+                    L.append("    %d [+%d]  Float  %s%s" % (o, sz, nm, bo.replace("\n    ", "\n      ")))
+                else:
+                    L.append("  %d [+%d]  Float  %s%s" % (o, sz, nm, bo))
+                self.floats.append((nm, o, sz, order))
 
     def text(self):
         return "\n".join(self.lines) + "\n"
